@@ -126,6 +126,39 @@ def run(ctx):
                           {'kind': 'counterexample', 'op': 'chk ' + ' '.join('%s:%d' % e for e in seq), 'impl': got, 'expected': want,
                            'replay': 'echo "<op>" | <harness c16>'})
             break
+    # 3a'. the relational operators offered on OSMObject describe ONE order: a > b iff b < a, a <= b iff not a > b,
+    #      a >= b iff not a < b, a != b iff not a == b (judged on the implementation's own answers: the
+    #      cmp line of (b, a) is looked up where the grid contains it)
+    cmp_out = {}
+    for o, r in zip(ops, impl[:len(ops)]):
+        cmp_out[o] = r.split()
+    nrel = 0
+    for o, f in cmp_out.items():
+        if len(f) < 10:
+            continue
+        lt, eq, gt, le, ge, ne = f[0], f[3], f[6], f[7], f[8], f[9]
+        bad = None
+        if ge != ('0' if lt == '1' else '1'):
+            bad = 'a >= b is not the negation of a < b'
+        elif le != ('0' if gt == '1' else '1'):
+            bad = 'a <= b is not the negation of a > b'
+        elif ne != ('0' if eq == '1' else '1'):
+            bad = 'a != b is not the negation of a == b'
+        else:
+            w = o.split()
+            rev = 'cmp ' + ' '.join(w[6:11]) + ' ' + ' '.join(w[1:6])
+            g = cmp_out.get(rev)
+            if g is not None and len(g) >= 10:
+                nrel += 1
+                if gt != g[0]:
+                    bad = 'a > b differs from b < a'
+                elif lt == '1' and g[7] == '1':
+                    bad = 'a < b and b <= a hold at the same time'
+        if bad:
+            ctx.violation('relops:' + o[4:100], 'the relational operators on OSMObject do not describe one order: %s on `%s` -> %s' % (bad, o, ' '.join(f)),
+                          {'kind': 'counterexample', 'op': o, 'impl': ' '.join(f)})
+            break
+    ctx.count('relops-pairs-with-reverse', nrel)
     # 3b. order laws on triples
     tgrid = [(t, i, v, ts, vis) for t in (1, 2) for i in IDS for v in (0, 1, 2, 2 ** 31 - 1) for ts in (0, 5, 9) for vis in (0, 1)]
     tri = []
